@@ -32,6 +32,7 @@ type c07Case struct {
 	Via      dm.Path    `json:"via,omitempty"` // Find(path?query) is issued from this container with leading ../ steps
 	Chain    bool       `json:"chain,omitempty"` // (with Constrain) one parameter at a time: each step constrains the selection the step before returned
 	Raw      bool       `json:"raw,omitempty"` // parameter values are written as RFC 8040 shows them: ; / ( ) ! as they are
+	Store    string     `json:"store,omitempty"` // "" = the reference store; json-reader | xml-reader: a document read by the library serves the data
 }
 
 type leafRec struct {
@@ -241,7 +242,16 @@ func c07Run(c c07Case, o *hx.Obs) {
 		}
 		return s
 	}
-	store, _ := dm.NewStore("rs", root, c.Data)
+	kind := c.Store
+	if kind == "" {
+		kind = "rs"
+	}
+	o.Class("store=%s", kind)
+	store, serr := dm.NewStore(kind, root, c.Data)
+	if serr != nil {
+		o.Failf("harness|store", "%v", serr)
+		return
+	}
 	b := node.NewBrowser(mm, store.Node())
 	path := findPath(c.Target)
 	read := func(query string) (dm.Tree, string, error, bool) {
@@ -477,6 +487,10 @@ func c07Gen(t *rapid.T) c07Case {
 	}
 	plant(root, data)
 	c := c07Case{Module: m, Data: data, Constrain: rapid.Bool().Draw(t, "constrain")}
+	c.Store = rapid.SampledFrom([]string{"", "", "", "json-reader", "xml-reader"}).Draw(t, "store")
+	if c.Store == "xml-reader" {
+		dropEmptyLists(c.Data) // XML has no way to say that a list is there and empty
+	}
 	var targets []dm.Path
 	for _, p := range dm.AllPaths(root, data, nil) {
 		n, _, _ := dm.Resolve(root, data, p)
